@@ -710,6 +710,9 @@ def totality_cases(tier):
         ("long-line-200k", T("y <== x; //" + "a" * 200000), []),
         ("non-ascii-identifiers", T("var \u00e9t\u00e9 = 1;\ny <== x;"), []),
         ("non-ascii-in-error-position", P + "template Main() { signal input x; signal output y; y <== x \u00e9\u00e9\u00e9 ; }\ncomponent main = Main();\n", []),
+        ("log-string-non-ascii-300", T('log("a' + "\u00e9" * 300 + '");\ny <== x;'), []),
+        ("log-string-ascii-1000", T('log("' + "b" * 1000 + '");\ny <== x;'), []),
+        ("log-string-4-byte-chars", T('log("' + "\U0001F600" * 100 + '");\ny <== x;'), []),
         ("include-empty-path", P + 'include "";\ntemplate Main() { signal input x; signal output y; y <== x; }\ncomponent main = Main();\n', []),
         ("pragma-version-garbage", "pragma circom 99999999999999999999.0.0;\ntemplate Main() { signal input x; signal output y; y <== x; }\ncomponent main = Main();\n", []),
     ]
@@ -750,7 +753,7 @@ def suite_totality(exe, tier, seed):
         shutil.rmtree(d, ignore_errors=True)
     return {"unit": "e2e-totality", "evaluations": evals, "distinct_nontrivial": nontrivial, "exhaustive": False,
             "rule": "the real CLI on grammar-valid but unusual programs: it terminates within 60 s with exit status 0 or 1, prints its summary line, and neither panics nor overflows its stack",
-            "bound": "templates with Circomlib's names and every arity 0..3 under the curves; 27 structural oddities and 18 lexer- and byte-level inputs (hex prefix without digits, empty file, invalid UTF-8, NUL bytes, BOM, unbalanced brackets, 200 000-character lines, non-ASCII text at error positions; empty bodies, deep nesting of ifs / loops / parentheses / ternaries, 2000-term sums, 200-fold unary chains, 400-digit literals in shifts and powers, division by constant zero, zero-sized arrays, 300 templates, 3000-character identifiers, custom templates)",
+            "bound": "templates with Circomlib's names and every arity 0..3 under the curves; 27 structural oddities and 21 lexer- and byte-level inputs (long and non-ASCII string literals in log, hex prefix without digits, empty file, invalid UTF-8, NUL bytes, BOM, unbalanced brackets, 200 000-character lines, non-ASCII text at error positions; empty bodies, deep nesting of ifs / loops / parentheses / ternaries, 2000-term sums, 200-fold unary chains, 400-digit literals in shifts and powers, division by constant zero, zero-sized arrays, 300 templates, 3000-character identifiers, custom templates)",
             "samples": samples, "violations": viol}
 
 
